@@ -4,7 +4,7 @@
 (* the reduced alphabet of Mode "mc"; both tiers in the state, obs is an   *)
 (* observation.  Text decorations do not matter here (one profile).        *)
 EXTENDS LayoutTree
-View == <<stack, heap, cnt, den>>
+View == <<stack, heap, cnt, den, sess>>
 (* the probes (copy / read again / C path) leave the state as it is: only the building actions are explored *)
 SpecMC == Init /\ [][Build]_vars
 =============================================================================
